@@ -635,4 +635,124 @@ theorem choice_first (h : SubHdr) (ns : List String) (cfg : Cfg) (n : String)
     obtain ⟨hp, as, bs, hns, hall⟩ := List.find?_eq_some_iff_append.1 hf
     exact ⟨hp, as, bs, hns, fun m hm => by simpa using hall m hm⟩
 
+
+/-! ## without `fail_no_subcommand` the required-subcommand error cannot occur (fix f6d3709: default config files) -/
+
+theorem getSub_nofail (h : SubHdr) (ns : List String) (single : Bool) (mode : Mode) (pre : List String) (cfg : Cfg) :
+    getSub h ns ⟨false, single, mode⟩ pre cfg = .ok (getSubCore h ns ⟨false, single, mode⟩ cfg) := by
+  simp [getSub]
+
+theorem mergeLayer_err (mode : Mode) (L : Cfg) (n : String) (c : Cfg) (e : Err) (h : mergeLayer mode L n c = .error e) :
+    e = .crash := by
+  unfold mergeLayer at h
+  cases mode with
+  | none => cases h
+  | dflt =>
+    simp only [] at h
+    split at h
+    · cases h
+    · split at h
+      · cases h; rfl
+      · cases h
+    · cases h
+  | env =>
+    simp only [] at h
+    split at h
+    · cases h
+    · split at h
+      · cases h; rfl
+      · cases h
+    · cases h
+
+mutual
+theorem handle_nofail_P : ∀ (p : P) (lay : Mode → P → Cfg) (single : Bool) (mode : Mode) (pre : List String) (cfg : Cfg) (e : Err),
+    handle lay ⟨false, single, mode⟩ pre p cfg = .error e → e = .crash
+  | .node i .none ch, lay, single, mode, pre, cfg, e, h => by rw [handle_leaf] at h; cases h
+  | .node i (some hd) choices, lay, single, mode, pre, cfg, e, h => by
+    rw [handle, getSub_nofail] at h
+    simp only [] at h
+    split at h
+    · cases h; rfl
+    · exact handle_nofail_L choices lay single mode pre _ _ e h
+theorem handle_nofail_L : ∀ (choices : List (String × P)) (lay : Mode → P → Cfg) (single : Bool) (mode : Mode) (pre : List String)
+    (todo : List String) (cfg : Cfg) (e : Err),
+    handleEach lay ⟨false, single, mode⟩ pre choices todo cfg = .error e → e = .crash
+  | [], lay, single, mode, pre, todo, cfg, e, h => by rw [handleEach] at h; cases h
+  | (m, q) :: rest, lay, single, mode, pre, todo, cfg, e, h => by
+    rw [handleEach] at h
+    split at h
+    · cases hml : mergeLayer mode (lay mode q) m cfg with
+      | error e' =>
+        simp only [hml] at h
+        cases h
+        exact mergeLayer_err _ _ _ _ _ hml
+      | ok cfg1 =>
+        simp only [hml] at h
+        cases hin : handle lay ⟨false, single, mode⟩ (pre ++ [m]) q (secOf (lookup m cfg1)) with
+        | error e' =>
+          simp only [hin] at h
+          cases h
+          exact handle_nofail_P q lay single mode _ _ _ hin
+        | ok inner =>
+          simp only [hin] at h
+          exact handle_nofail_L rest lay single mode pre todo _ e h
+    · exact handle_nofail_L rest lay single mode pre todo cfg e h
+end
+
+mutual
+theorem sweep_err_P : ∀ (p : P) (single : Bool) (cfg : Cfg) (e : Err), sweep single p cfg = .error e → e = .crash
+  | .node i .none ch, single, cfg, e, h => by rw [sweep_leaf] at h; cases h
+  | .node i (some hd) choices, single, cfg, e, h => by
+    rw [sweep, getSub_nofail] at h
+    simp only [] at h
+    split at h
+    · cases h
+    · split at h
+      · split at h
+        · split at h
+          · exact sweep_err_L choices single _ _ e h
+          · cases h; rfl
+        · cases h
+      · cases h
+theorem sweep_err_L : ∀ (choices : List (String × P)) (single : Bool) (n : String) (cfg : Cfg) (e : Err),
+    sweepIn single choices n cfg = .error e → e = .crash
+  | [], single, n, cfg, e, h => by rw [sweepIn] at h; cases h
+  | (m, q) :: rest, single, n, cfg, e, h => by
+    rw [sweepIn] at h
+    split at h
+    · split at h
+      · rename_i kvs _
+        cases hs : sweep single q kvs with
+        | error e' =>
+          simp only [hs] at h
+          cases h
+          exact sweep_err_P q single _ _ hs
+        | ok inner => simp [hs] at h
+      · split at h
+        · cases h
+        · cases h; rfl
+    · exact sweep_err_L rest single n cfg e h
+end
+
+/-- loading a default config file (`get_defaults`) can never produce the "expected <subcommand> to be one of" error -/
+theorem applyDefaultCfg_never_requires (single : Bool) (p : P) (tree cfg : Cfg) (key : List String) :
+    applyDefaultCfg single p tree cfg ≠ .error (.nosub key) := by
+  intro h
+  unfold applyDefaultCfg parseCommon at h
+  cases h1 : handle (fun _ _ => []) ⟨false, single, .none⟩ [] p (merge tree cfg) with
+  | error e =>
+    simp only [h1] at h
+    cases h
+    have := handle_nofail_P p _ single .none [] _ _ h1
+    cases this
+  | ok c1 =>
+    simp only [h1, if_true] at h
+    cases h2 : sweep single p c1 with
+    | error e =>
+      simp only [h2] at h
+      cases h
+      have := sweep_err_P p single _ _ h2
+      cases this
+    | ok c2 => simp [h2] at h
+
 end Jap.Subcmd
